@@ -15,7 +15,7 @@ from .logic import Unsupported
 from . import solve
 
 HERE = os.path.dirname(os.path.dirname(os.path.abspath(__file__)))
-CONTRACT_MODULES = ['contracts.c_graph', 'contracts.c_sanitize', 'contracts.c_job', 'contracts.env_asyncio', 'contracts.c_window', 'contracts.c_run', 'contracts.c_corun', 'contracts.c_scheduler', 'contracts.c_build', 'contracts.c_surgery']
+CONTRACT_MODULES = ['contracts.c_graph', 'contracts.c_sanitize', 'contracts.c_job', 'contracts.env_asyncio', 'contracts.c_window', 'contracts.c_run', 'contracts.c_corun', 'contracts.c_scheduler', 'contracts.c_build', 'contracts.c_surgery', 'contracts.c_ids']
 
 
 def load_contracts():
